@@ -970,7 +970,7 @@ func (r *c10Replica) cfgTerm(g string) string {
 // termOf computes, before delivery, the model's view of the message: the wmsg term, the env term and
 // whether nothing in it verifies.
 func (r *c10Replica) termOf(m *c10Msg, pb proto.Message) (msg, env string, bad, unvalidated bool) {
-	ev := [9]bool{} // view_ok, vote_rule, qc_match, hq_signed, sig_same, leader_ok, vote_reach, contrib_reach, peer_in_matrix
+	ev := [9]bool{} // 0 view_ok, 1 vote_rule, 2 qc_match, 5 leader_ok, 6 vote_reach, 7 contrib_reach, 8 peer_in_matrix (3, 4 unused)
 	// the id the service handler hands to addNetworkDelay
 	delayID := uint64(0)
 	if m.ctxID >= 0 {
@@ -1006,7 +1006,7 @@ func (r *c10Replica) termOf(m *c10Msg, pb proto.Message) (msg, env string, bad, 
 				ev[1] = c10Try(func() bool { return r.rules.VoteRule(bv, pm) })
 				if pm.AggregateQC != nil {
 					// the high QC the (uncached) authority extracts from the aggregate QC, compared with the
-					// block QC field by field (QuorumCert.Equals itself is code under test)
+					// block QC by view and block hash, as VerifyAnyQC does
 					c10Try(func() bool {
 						hq, err := r.oauth.VerifyAggregateQC(*pm.AggregateQC)
 						if err != nil {
@@ -1014,8 +1014,6 @@ func (r *c10Replica) termOf(m *c10Msg, pb proto.Message) (msg, env string, bad, 
 						}
 						bq := pm.Block.QuorumCert()
 						ev[2] = bq.View() == hq.View() && bq.BlockHash() == hq.BlockHash()
-						ev[3] = hq.Signature() != nil
-						ev[4] = bq.Signature() != nil && hq.Signature() != nil && bytes.Equal(bq.Signature().ToBytes(), hq.Signature().ToBytes())
 						return true
 					})
 				}
@@ -1098,7 +1096,7 @@ func (r *c10Replica) termOf(m *c10Msg, pb proto.Message) (msg, env string, bad, 
 		s, sb := r.sigTerm(k.GetSignature(), r.verifyAgainst(bb))
 		msg, bad = fmt.Sprintf("(MContribution (KC %s))", s), sb
 	}
-	env = fmt.Sprintf("(EV %s %s %s %s %s %s %s %s %s)", c10B(ev[0]), c10B(ev[1]), c10B(ev[2]), c10B(ev[3]), c10B(ev[4]), c10B(ev[5]), c10B(ev[6]), c10B(ev[7]), c10B(ev[8]))
+	env = fmt.Sprintf("(EV %s %s %s %s %s %s %s)", c10B(ev[0]), c10B(ev[1]), c10B(ev[2]), c10B(ev[5]), c10B(ev[6]), c10B(ev[7]), c10B(ev[8]))
 	return
 }
 
@@ -1850,6 +1848,40 @@ func (x *c10Run) decoders(w *c10World) {
 		b := &hotstuffpb.Block{QC: q, View: 4}
 		call(fmt.Sprintf("BlockFromProto(qc sig #%d)", i), fmt.Sprintf("(DBlock (Some (BL %s 4 F F)))", qt), func() { hotstuffpb.BlockFromProto(b) })
 		call(fmt.Sprintf("ProposalFromProto(qc sig #%d)", i), fmt.Sprintf("(DProposal (Some (PR (Some (BL %s 4 F F)) %s)))", qt, at), func() { hotstuffpb.ProposalFromProto(&hotstuffpb.Proposal{Block: b, AggQC: a}) })
+	}
+	// QuorumCert.Equals, an exported method no handler calls any more: every combination of equal / different view and
+	// hash, nil / present signatures, equal / different signature bytes
+	sigA, sigB := w.qcs[1].Signature(), w.qcs[2].Signature()
+	h1, h2 := w.blocks[1].Hash(), w.blocks[2].Hash()
+	for _, vh := range []int{0, 1, 2} { // 0: equal view and hash, 1: other view, 2: other hash
+		for _, a := range []hotstuff.QuorumSignature{nil, sigA} {
+			for _, b := range []hotstuff.QuorumSignature{nil, sigA, sigB} {
+				qa := hotstuff.NewQuorumCert(a, 1, h1)
+				qb := hotstuff.NewQuorumCert(b, 1, h1)
+				if vh == 1 {
+					qb = hotstuff.NewQuorumCert(b, 2, h1)
+				} else if vh == 2 {
+					qb = hotstuff.NewQuorumCert(b, 1, h2)
+				}
+				var res bool
+				ret := c10Returns(func() { res = qa.Equals(qb) })
+				same := a != nil && b != nil && bytes.Equal(a.ToBytes(), b.ToBytes())
+				name := fmt.Sprintf("QuorumCert.Equals(view/hash variant %d, this signed=%v, other signed=%v, same bytes=%v)", vh, a != nil, b != nil, same)
+				meta := map[string]any{"call": name, "returned": ret, "result": res, "scheme": w.scheme}
+				// no oracle: Equals is not reachable from a peer message any more; the kernel compares whether the call
+				// returns with the model under the probed guard
+				if !ret {
+					x.v.Count("note:QuorumCert.Equals-panics-on-direct-call")
+				}
+				r := "None"
+				if ret {
+					r = "(Some " + c10B(res) + ")"
+				}
+				x.v.Case(s, fmt.Sprintf("(EQ %s %s %s %s %s %s)", x.gterm, c10B(vh == 0), c10B(a != nil), c10B(b != nil), c10B(same), r), meta)
+				x.v.Seen("equals|"+w.scheme+"|"+name, true, meta)
+				x.v.Count("handler:decode")
+			}
+		}
 	}
 	call("QuorumCertFromProto(nil)", "(DQC None)", func() { hotstuffpb.QuorumCertFromProto(nil) })
 	call("TimeoutCertFromProto(nil)", "(DTC None)", func() { hotstuffpb.TimeoutCertFromProto(nil) })
